@@ -1085,6 +1085,25 @@ def invalid_sweep(payload):
                                   for i in u.inputs)
                     if carries:
                         res.append([name, ctor, k, params[k].name, kind])
+    # operator and fused units given an invalid operand
+    from sc3.synth.ugens.noise import Dust
+    opforms = {'madd_add': lambda x, y, b: x.madd(2, b), 'madd_mul': lambda x, y, b: x.madd(b, 1), 'mul': lambda x, y, b: x * b,
+               'rsub': lambda x, y, b: b - x, 'sum3': lambda x, y, b: ugn.Sum3.new(x, y, b), 'sum4': lambda x, y, b: ugn.Sum4.new(x, y, x * 2, b),
+               'pow': lambda x, y, b: x ** b}
+    for form, fn in opforms.items():
+        for kind in kinds:
+            if kind == 'inf':
+                continue
+            bad = {'nan': float('nan'), 'none': None, 'str': 'x'}[kind]
+
+            def g():
+                x, y = WhiteNoise.ar(), Dust.ar(3)
+                Out.ar(0, fn(x, y, bad))
+            try:
+                raw = bytes(SynthDef('ivo', g).as_bytes())
+            except Exception:
+                continue
+            res.append(['operator', form, 0, 'operand', kind])
     return res
 
 
@@ -1287,8 +1306,9 @@ def mix_probe(payload):
     ns = {'Out': Out, 'SoundIn': SoundIn}
     exec("def si_ctl(left=2, right=5):\n    Out.ar(0, SoundIn.ar([left, right]))\n"
          "def si_cons():\n    Out.ar(0, SoundIn.ar([2, 3]))\n"
-         "def si_gap():\n    Out.ar(0, SoundIn.ar([2, 5]))\n", ns)
-    for name, want in (('si_ctl', [1, 1]), ('si_cons', [2]), ('si_gap', [1, 1])):
+         "def si_gap():\n    Out.ar(0, SoundIn.ar([2, 5]))\n"
+         "def si_perm():\n    Out.ar(0, SoundIn.ar([0, 2, 1, 3]))\n", ns)
+    for name, want in (('si_ctl', [1, 1]), ('si_cons', [2]), ('si_gap', [1, 1]), ('si_perm', [1, 1, 1, 1])):
         try:
             d = scgf.parse(bytes(SynthDef(name, ns[name]).as_bytes()))[0]
             ins = [len(u['outs']) for u in d['ugens'] if u['cls'] == 'In']
